@@ -199,6 +199,31 @@ func c14Retained(c *core.Ctx, t *dyn.TypeOps, ch, l, k int, caseID string, ragge
 						ok = false
 						return
 					}
+					// a write through the view at that index changes that sample and
+					// nothing else: not the parent's length, not its neighbours
+					lenBefore, capBefore := parent.Len(), parent.Cap()
+					var nbBefore []dyn.Val
+					for q := 0; q < parent.RawCap(); q++ {
+						nbBefore = append(nbBefore, parent.RawAt(q))
+					}
+					x := stamp()
+					v.SetSample(full, x)
+					if parent.Len() != lenBefore || parent.Cap() != capBefore {
+						c.Violate(inst+"|retained-write", caseID, fmt.Sprintf("after %s: writing index %d (the last, partly filled frame) through the view of channel %d changed the parent's Len/Cap from %d/%d to %d/%d", step, full, cc, lenBefore, capBefore, parent.Len(), parent.Cap()), d)
+						ok = false
+						return
+					}
+					for q := 0; q < parent.RawCap(); q++ {
+						want := nbBefore[q]
+						if q == pos {
+							want = x
+						}
+						if got := parent.RawAt(q); !got.Same(want) {
+							c.Violate(inst+"|retained-write", caseID, fmt.Sprintf("after %s: writing %v at index %d (the last, partly filled frame) through the view of channel %d: storage position %d holds %v, expected %v", step, x, full, cc, q, got, want), d)
+							ok = false
+							return
+						}
+					}
 				}
 				for i := 0; i < full; i++ {
 					pos := ch*i + cc
